@@ -179,6 +179,7 @@ def run(ctx, rep):
     r01_4(ctx, rep)
     r01_7(ctx, rep)
     r01_9(ctx, rep)
+    r01_10(ctx, rep)
 
 
 def _tables(ctx, rep):
@@ -543,6 +544,116 @@ def r01_4(ctx, rep):
         rep.violation("R01.4", "purge|record-mapping", "purge(upto)",
                       "purge does not follow: no-op iff log_index(upto) < next_log_index(purged), else journal PurgeUpto(upto) (selector state %s, record %s)"
                       % (bad[1] if bad else None, [expr_s(x)[:40] for x in recs]), where=g.where(g.entry))
+
+
+def _journalled_records(ctx, key):
+    g = ctx.graph(key)
+    P = ctx.product(key)
+    encs = [n for n, sub in g.callee_inst.items() if re.search(r"WALRecord<T> as codeq::Encode>::encode$", sub.key) and n in P.live
+            and len(event_args(g, n)) > 1 and has_field(strip_ids(event_args(g, n)[1]), "pending_data")]
+    return g, P, encs
+
+
+def _state_payload_fields(ctx, g, e, names):
+    """field-wise sources of a RaftLogState value: {field: set(expr)}; handles an aggregate (incl. struct-update syntax) and a mutable local
+    that is initialised as a whole and then has single fields assigned"""
+    e = strip_ids(e) if not (isinstance(e, tuple) and e and e[0] == "var") else e
+    if isinstance(e, tuple) and e and e[0] == "agg" and str(e[1]).endswith("RaftLogState") and len(e[3]) == len(names):
+        return {nm: {strip_ids(x)} for nm, x in zip(names, e[3])}
+    if isinstance(e, tuple) and e and e[0] == "var":
+        vi = g.insts[e[1]]
+        whole, per = set(), {}
+        for d in g.prog.defs(vi.key).get(e[2], []):
+            if d[0] == "s":
+                st = vi.body["blocks"][d[1]]["stmts"][d[2]]
+                v = strip_ids(g.prov_rvalue(vi, st["rv"], None))
+                fl = [el for el in st["p"]["proj"] if isinstance(el, dict) and "f" in el]
+                if fl:
+                    per.setdefault(fl[0].get("n"), set()).add(v)
+                else:
+                    whole.add(v)
+            else:
+                whole.add(strip_ids(g.prov_call(vi, d[1])))
+        out = {}
+        for nm in names:
+            if nm in per:
+                out[nm] = per[nm]
+            else:
+                out[nm] = set()
+                for w in whole:
+                    sub = _state_payload_fields(ctx, g, w, names)
+                    out[nm] |= sub[nm] if sub else {("field", w, nm)}
+        return out
+    return {nm: {("field", e, nm)} for nm in names}
+
+
+def r01_10(ctx, rep):
+    """R01.10: which record an operation journals (the operations R01.4 does not cover)."""
+    rep.rule("R01.10", "operation -> record table: save_vote(v) journals SaveVote(v); commit(id) journals Commit(id); append journals, per element, "
+                       "Append(that element's log id, that element's payload); update_state(s) journals State(s); save_user_data(d) journals "
+                       "State(stored state with user_data := d and every other declared field unchanged)")
+    STATE = ("field", ("field", ("arg", 1), "state_machine"), "log_state")
+    elem = ("okval", ("call", "std::iter::Iterator::next", (("arg", 2),)))
+    WANT = {
+        "save_vote": ("SaveVote", (("arg", 2),)),
+        "commit": ("Commit", (("arg", 2),)),
+        "append": ("Append", (("field", elem, "0"), ("field", elem, "1"))),
+    }
+    adt = ctx.facts.adts.get("raft_log::state_machine::raft_log_state::RaftLogState")
+    names = [f["name"] for f in adt["variants"][0]["fields"]] if adt else []
+    rep.floor("R01.10", "declared fields of RaftLogState", len(names), 5)
+    ops = [(op, ctx.body_key(WRITER_RX % op)) for op in ("save_vote", "commit", "append", "save_user_data")]
+    ops.append(("update_state", ctx.body_key(r"RaftLog::<T>::update_state$")))
+    for op, key in ops:
+        g, P, encs = _journalled_records(ctx, key)
+        if not rep.expect("R01.10", "%s: journal event" % op, len(encs) >= 1, "no encode into pending_data found in Op(%s)" % op):
+            continue
+        for n in encs:
+            raw = event_args(g, n)[0]
+            rec = strip_ids(raw)
+            if not (isinstance(rec, tuple) and rec and rec[0] == "agg" and str(rec[1]).endswith("WALRecord")):
+                rep.unresolved("R01.10", "%s: record shape" % op, "the journalled record is not a WALRecord aggregate: %s" % expr_s(rec)[:80], where=g.where(n))
+                continue
+            variant, payload = rec[2], rec[3]
+            if op in WANT:
+                wv, wp = WANT[op]
+                if variant == wv and tuple(payload) == wp:
+                    rep.ok("R01.10", "%s -> %s(%s)" % (op, variant, ", ".join(expr_s(x)[:40] for x in payload)), "", where=g.where(n))
+                else:
+                    rep.violation("R01.10", "%s|journals:%s(%s)" % (op, variant, ", ".join(expr_s(x)[:40] for x in payload)[:80]), "Op(%s)" % op,
+                                  "%s journals %s(%s) instead of %s(%s): the write the caller asked for is not the write that is recorded and applied"
+                                  % (op, variant, ", ".join(expr_s(x)[:50] for x in payload), wv, ", ".join(expr_s(x)[:50] for x in wp)), where=g.where(n))
+                continue
+            if variant != "State" or len(payload) != 1:
+                rep.violation("R01.10", "%s|journals:%s" % (op, variant), "Op(%s)" % op, "%s journals a %s record instead of State" % (op, variant), where=g.where(n))
+                continue
+            # payload with ids kept when it is a local variable (its stores are looked up)
+            p_raw = raw[3][0] if (isinstance(raw, tuple) and raw[0] == "agg") else payload[0]
+            p_use = p_raw if (isinstance(p_raw, tuple) and p_raw and p_raw[0] == "var") else payload[0]
+            if op == "update_state":
+                if payload[0] == ("arg", 2):
+                    rep.ok("R01.10", "update_state -> State(arg)", "", where=g.where(n))
+                else:
+                    fl = _state_payload_fields(ctx, g, p_use, names)
+                    bad = [nm for nm in names if fl[nm] != {("field", ("arg", 2), nm)}]
+                    if bad:
+                        rep.violation("R01.10", "update_state|state-fields:%s" % ",".join(bad), "Op(update_state)",
+                                      "update_state does not journal the state it was given (fields %s differ)" % bad, where=g.where(n))
+                    else:
+                        rep.ok("R01.10", "update_state -> State(arg, field by field)", "", where=g.where(n))
+                continue
+            fl = _state_payload_fields(ctx, g, p_use, names)
+            bad = []
+            for nm in names:
+                want = {("arg", 2)} if nm == "user_data" else {("field", STATE, nm)}
+                if fl.get(nm) != want:
+                    bad.append("%s<=%s" % (nm, "|".join(sorted(expr_s(x)[:40] for x in fl.get(nm, [])))))
+            if bad:
+                rep.violation("R01.10", "save_user_data|state-fields:%s" % ";".join(bad)[:100], "Op(save_user_data)",
+                              "save_user_data journals a State record that is not `stored state with user_data := argument`: %s" % "; ".join(bad)[:300],
+                              where=g.where(n))
+            else:
+                rep.ok("R01.10", "save_user_data -> State(stored state, user_data := arg)", "%d fields" % len(names), where=g.where(n))
 
 
 def r01_7(ctx, rep):
